@@ -1032,6 +1032,15 @@ class Unit:
         self.log["dropped_docs"] += dd
         self.log["dropped_attrs"] += da
         iter_params = []
+        # name resolution guard: the unit is one flat module, so a call `g(..)` in this body is bound to the free function `g` the
+        # unit extracted from ANOTHER file; if this file now defines its own module-level `fn g` (shadowing the import), the
+        # repository calls that one instead -> the unit would verify the wrong callee: stop (exit 2)
+        _, file_items = self.load(rel.split("!")[0]) if "!" in rel else self.load(rel)
+        local_fns = {x.name for x in file_items if x.kind == "fn"}
+        body_idents = {t.text for t in toks if t.kind == L.IDENT}
+        for g, origin in getattr(self, "freefn_origin", {}).items():
+            if origin != rel and g in local_fns and g in body_idents:
+                raise Unsupported("lost anchor: `%s` called in fn %s now resolves to a function defined in %s, the unit binds it to %s" % (g, spec["name"], rel, origin))
         self.r16_fp = fp
         if free:
             mfp = re.search(r"<\s*(\w+)\s*:\s*(?:num_traits::)?Float\s*>", text_of(toks[:find_fn_parts(toks)["params_open"]]))
@@ -1526,10 +1535,14 @@ class Unit:
         # names the unit itself provides (directives and template text): a call to anything else that is a PRIVATE function of
         # the same source file is inlined (rule R16)
         self.known_fns = set()
+        self.freefn_origin = {}
         for ln in lines:
             m_ = re.match(r"\s*//@(?:fn|freefn\s+\S+)\s+(\w+)", ln)
             if m_:
                 self.known_fns.add(m_.group(1))
+                mf = re.match(r"\s*//@freefn\s+(\S+)\s+(\w+)", ln)
+                if mf:
+                    self.freefn_origin[mf.group(2)] = mf.group(1)
             elif not ln.strip().startswith("//"):
                 self.known_fns.update(re.findall(r"\bfn\s+(\w+)", ln))
         i = 0
